@@ -399,8 +399,116 @@ func splitterOpAllowed(kind string, in ssa.Instruction) bool {
 		c := in.(*ssa.Call)
 		s, ok := constString(c.Call.Args[1])
 		return ok && s == ""
+	case "strslice":
+		return sepSliceOK(curWorld, in)
 	}
 	return false
+}
+
+// curWorld: the tree the rules are being evaluated on (set by runProp; the provenance callbacks have no other way to it).
+var curWorld *World
+
+// sepSliceOK: in is g[1:] where g is a capture group of the tokeniser's expression that, when it takes part in a match
+// and is not empty, starts with one separator character ('=' or ':') - dropping the first byte is TrimPrefix of that
+// separator.
+func sepSliceOK(w *World, in ssa.Instruction) bool {
+	sl, ok := in.(*ssa.Slice)
+	if !ok || w == nil || sl.High != nil || sl.Max != nil {
+		return false
+	}
+	if k, ok := constInt(sl.Low); !ok || k != 1 {
+		return false
+	}
+	ld, ok := sl.X.(*ssa.UnOp)
+	if !ok || ld.Op != token.MUL {
+		return false
+	}
+	ia, ok := ld.X.(*ssa.IndexAddr)
+	if !ok {
+		return false
+	}
+	grp, ok := constInt(ia.Index)
+	if !ok || grp < 1 {
+		return false
+	}
+	globals := submatchRegexes(w, ia.X, map[ssa.Value]bool{})
+	if len(globals) == 0 {
+		return false
+	}
+	infos := w.regexConstants()
+	for _, g := range globals {
+		var re *syntax.Regexp
+		for _, ri := range infos {
+			if ri.Global == g && ri.Err == nil {
+				re = ri.Re
+			}
+		}
+		if re == nil {
+			return false
+		}
+		groups := rxGroups(re)
+		if int(grp) >= len(groups) || groups[grp] == nil || len(groups[grp].Sub) != 1 {
+			return false
+		}
+		first := groups[grp].Sub[0]
+		if first.Op == syntax.OpConcat && len(first.Sub) > 0 {
+			first = first.Sub[0]
+		}
+		isSep := func(r rune) bool { return r == '=' || r == ':' }
+		// … or the group takes the whole rest of the text right behind a greedy run of non-separator characters
+		// (`([^=:]+)(.*?)$`): the run is as long as it can be, so what is left starts with a separator or is empty
+		if rxMatchesEverything(groups[grp]) && re.Op == syntax.OpConcat {
+			okPrev := false
+			for i, el := range re.Sub {
+				if el != groups[grp] || i == 0 {
+					continue
+				}
+				last := true
+				for _, after := range re.Sub[i+1:] {
+					if after.Op != syntax.OpEndText && after.Op != syntax.OpEndLine {
+						last = false
+					}
+				}
+				prev := re.Sub[i-1]
+				if prev.Op == syntax.OpCapture && len(prev.Sub) == 1 {
+					prev = prev.Sub[0]
+				}
+				if last && (prev.Op == syntax.OpPlus || prev.Op == syntax.OpStar) && prev.Flags&syntax.NonGreedy == 0 && len(prev.Sub) == 1 {
+					if comp, ok := rxClassComplement(prev.Sub[0], 4); ok && len(comp) > 0 {
+						okPrev = true
+						for _, r := range comp {
+							if !isSep(r) {
+								okPrev = false
+							}
+						}
+					}
+				}
+			}
+			if okPrev {
+				continue
+			}
+		}
+		switch first.Op {
+		case syntax.OpLiteral:
+			if len(first.Rune) < 1 || !isSep(first.Rune[0]) || first.Flags&syntax.FoldCase != 0 {
+				return false
+			}
+		case syntax.OpCharClass:
+			for i := 0; i+1 < len(first.Rune); i += 2 {
+				for r := first.Rune[i]; r <= first.Rune[i+1]; r++ {
+					if !isSep(r) {
+						return false
+					}
+				}
+			}
+			if len(first.Rune) == 0 {
+				return false
+			}
+		default:
+			return false
+		}
+	}
+	return true
 }
 
 // R01.2
